@@ -89,7 +89,7 @@ def close(a, b, rel=1e-9, ab=1e-12):
 
 
 def ulp_grid():
-    pts = [-1.0, 0.0, 1.0, PI / 2, -PI / 2, PI, -PI, 2 * PI, 0.5, -0.5, 2.0, -2.0] + [float(i) for i in range(-10, 11)]
+    pts = [-1.0, 0.0, 1.0, PI / 2, -PI / 2, PI, -PI, 2 * PI, 0.5, -0.5, 2.0, -2.0, 3 * PI / 2, -3 * PI / 2, 5 * PI / 2, 7 * PI / 2] + [float(i) for i in range(-10, 11)]
     out = []
     for p in pts:
         for d in (0.0, 1e-9, -1e-9, 1e-3, -1e-3):
@@ -138,6 +138,11 @@ def check_unary(case):
             raise Violation('%s with x=%r is outside the real domain but returned %r' % (f, x, g), enc(g), 'error')
         return
     if not comparable(name, x):
+        if name in ('TAN', 'COT') and abs(REF[name](x)) < 1e300:
+            # next to a pole the value is huge and ill-conditioned, so it is not compared - but it exists (no double is a pole of the tangent): a number, not an error
+            if r['error'] is not None or isinstance(g, bool) or not isinstance(g, (int, float)) or not math.isfinite(g) or abs(g) < 1e9:
+                raise Violation('%s with x=%r -> %r; the value exists (about %.3g): expected a number of that size' % (f, x, r['error'] or g, float(REF[name](x))), r['error'] or enc(g), float(REF[name](x)))
+            return
         raise Skip('ill-conditioned-or-overflow')
     want = REF[name](x)
     if r['error'] is not None or isinstance(g, bool) or not isinstance(g, (int, float)) or not math.isfinite(g):
